@@ -110,13 +110,14 @@ def _run_task(args):
             "solver_time": res.solver_time,
             "functions": funcs,
             "declared_functions": list(task.functions),
+            "contracts_applied": sorted(it.contracts_applied),
             "trusted": dict(stdlib.TRUSTED),
             "expect_covers": list(getattr(task, "expect_covers", [])),
         }
     except Exception:
         return {"task": name, "module": mod, "crash": traceback.format_exc(), "wall": time.time() - t0,
                 "obligations": [], "paths": 0, "covers": [], "unsupported": [], "errors": [], "functions": {},
-                "declared_functions": [], "trusted": {}, "ends": {}, "solver_checks": 0, "solver_time": 0,
+                "declared_functions": [], "trusted": {}, "ends": {}, "solver_checks": 0, "solver_time": 0, "contracts_applied": [],
                 "expect_covers": []}
 
 
@@ -209,6 +210,7 @@ def main(argv=None):
         m["solver_checks"] += r["solver_checks"]
         m["solver_time"] += r["solver_time"]
         m["functions"].update(r["functions"])
+        m["contracts_applied"] = sorted(set(m.get("contracts_applied", [])) | set(r.get("contracts_applied", [])))
     results = [merged[k] for k in order]
 
     extra = {}
